@@ -149,6 +149,10 @@ def equilibrium_backward_error(nodes, A, Iy, Iz, J, E, G, loads, root, disp, flo
     f = np.asarray(loads, float).reshape(-1)
     st = float(np.max(np.abs(d[:, :3])))
     sr = float(np.max(np.abs(d[:, 3:])))
+    # a block that is theoretically zero (e.g. rotations under a purely axial load) carries round-off of the other
+    # block's size: convert with the extent of the beam
+    lchar = 2.0 * float(np.max(np.sqrt(np.sum((nodes - nodes.mean(axis=0)) ** 2, axis=1))))
+    st, sr = max(st, sr * lchar), max(sr, st / lchar)
     s = np.tile(np.array([st, st, st, sr, sr, sr]), n)
     r = K[free] @ u - f[free]
     den = np.abs(K[free]) @ np.abs(u) + np.abs(f[free]) + floor * np.diag(K)[free] * s[free]
